@@ -269,6 +269,9 @@ def do_fs(op, a):
         return with_sid(a[0], lambda x: out(lambda: f(x)))
     return None
 
+_PERSIST = {}
+_DANGLING = []
+
 def do(op, a):
     if op == 'seq':
         return [do(o, x) for o, x in a]
@@ -407,6 +410,26 @@ def do(op, a):
         import re as _re
         from spil.sid.read.finders.find_list import glob2re
         return out(lambda: t_bool(_re.match(glob2re(a[0]), a[1]) is not None))
+    if op == 'pfind':
+        # one long-lived Finder instance per kind (as an application holds it); a[2] = 'all' or the number of results to take
+        # before the generator is left unconsumed
+        from spil import FindInPaths, FindInAll
+        kind = (a[0], a[1])
+        if kind not in _PERSIST:
+            _PERSIST[kind] = FindInAll() if a[0] == 'all' else FindInPaths(a[1] or None)
+        def f():
+            g = _PERSIST[kind].find(a[2], as_sid=False)
+            if a[3] == 'all':
+                return sorted(g)
+            res = []
+            for _ in range(int(a[3])):
+                try:
+                    res.append(next(g))
+                except StopIteration:
+                    break
+            _DANGLING.append(g)
+            return res
+        return out(f)
     if op == 'consume_partial':
         from spil import FindInList
         def f():
